@@ -991,6 +991,56 @@ func ruleSyncArm(w *World, r *Report, pfx string) {
 		}
 	}
 	r.Check(okCover && nUpd >= 2, rule, "rebuild loop", w.instrPos(rebuildLoop.Header.Instrs[0]), "ranges over the whole heap; both matrices appended", "the rebuild does not visit every bar of the heap and append both halves of its sync table")
+	// both halves of a bar's table are read: constant indices into the [2][]chan table cover {0, 1}
+	// (a half read twice puts the same channels into both matrices - two distributors compete for one
+	// answer each - and leaves the other half's decorators without any)
+	{
+		halves := map[int64]bool{}
+		dynamic := false
+		isTable := func(t types.Type) bool {
+			if pt, ok := t.Underlying().(*types.Pointer); ok {
+				t = pt.Elem()
+			}
+			a, ok := t.Underlying().(*types.Array)
+			if !ok || a.Len() != 2 {
+				return false
+			}
+			sl, ok := a.Elem().Underlying().(*types.Slice)
+			if !ok {
+				return false
+			}
+			_, isCh := sl.Elem().Underlying().(*types.Chan)
+			return isCh
+		}
+		for _, f := range rebuildFns {
+			for _, b := range f.Blocks {
+				for _, in := range b.Instrs {
+					var idx ssa.Value
+					switch x := in.(type) {
+					case *ssa.IndexAddr:
+						if isTable(x.X.Type()) {
+							idx = x.Index
+						}
+					case *ssa.Index:
+						if isTable(x.X.Type()) {
+							idx = x.Index
+						}
+					}
+					if idx == nil {
+						continue
+					}
+					if k, ok := constInt(idx); ok {
+						halves[k] = true
+					} else {
+						dynamic = true
+					}
+				}
+			}
+		}
+		if len(halves) > 0 || dynamic {
+			r.Check(dynamic || (halves[0] && halves[1]), rule, "table halves", w.instrPos(rebuildLoop.Header.Instrs[0]), "prepend and append half both read", "only one half of the bars' sync tables is read while the matrices are rebuilt")
+		}
+	}
 	// syncWidth: one distributor per column (range over the map, one go each)
 	if syncWidthFn != nil {
 		okSW := false
